@@ -337,6 +337,16 @@ func runC16(t *testing.T, sched simrt.Schedule, prog c16Prog) ([]Violation, RunS
 					}
 					continue
 				}
+				if row == nil && err != nil && !collectable(u) && wasLinked[u.ID] && w.rt.Now()-u.At > time.Hour {
+					// its last link went with the action just executed (avatar replaced, messages or topic deleted) and a
+					// collector tick fell into the same action: older than the grace hour, it was collectable at once
+					if _, still := w.Disk.FileUploads[u.ID]; !still && !linkedNow(u.ID) {
+						simrt.Probe("c16.collected")
+						collectedNow++
+						dropUp(u.ID)
+						continue
+					}
+				}
 				if row == nil && err != nil && collectable(u) {
 					simrt.Probe("c16.collected")
 					collectedNow++
